@@ -263,3 +263,52 @@ pub fn diff(expected: &MBucket, got: &MBucket, path: &mut Path, check_int: bool)
         }
     }
 }
+
+fn hx(b: &[u8]) -> String {
+    let mut s = String::with_capacity(b.len() * 2);
+    for c in b {
+        s.push_str(&format!("{:02x}", c));
+    }
+    s
+}
+
+fn unhx(s: &str) -> Option<Vec<u8>> {
+    if s.len() % 2 != 0 {
+        return None;
+    }
+    (0..s.len() / 2)
+        .map(|i| u8::from_str_radix(&s[2 * i..2 * i + 2], 16).ok())
+        .collect()
+}
+
+impl MBucket {
+    /// JSON form with hex keys/values: {"next_int": n, "entries": [[key, {"v": hex} | {"b": bucket}], ...]}
+    pub fn to_value(&self) -> serde_json::Value {
+        let entries: Vec<serde_json::Value> = self
+            .entries
+            .iter()
+            .map(|(k, n)| match n {
+                MNode::Val(v) => serde_json::json!([hx(k), {"v": hx(v)}]),
+                MNode::Bucket(b) => serde_json::json!([hx(k), {"b": b.to_value()}]),
+            })
+            .collect();
+        serde_json::json!({"next_int": self.next_int, "entries": entries})
+    }
+
+    pub fn from_value(v: &serde_json::Value) -> Option<MBucket> {
+        let mut out = MBucket {
+            next_int: v.get("next_int")?.as_u64()?,
+            entries: BTreeMap::new(),
+        };
+        for e in v.get("entries")?.as_array()? {
+            let k = unhx(e.get(0)?.as_str()?)?;
+            let n = e.get(1)?;
+            if let Some(val) = n.get("v") {
+                out.entries.insert(k, MNode::Val(unhx(val.as_str()?)?));
+            } else {
+                out.entries.insert(k, MNode::Bucket(MBucket::from_value(n.get("b")?)?));
+            }
+        }
+        Some(out)
+    }
+}
